@@ -286,7 +286,12 @@ func (fs *realFS) ModKey(path string) (ModKey, error) {
 		defer fs.watchMutex.Unlock()
 		fs.watchMutex.Lock()
 		data, ok := fs.watchData[path]
-		if !ok {
+		if !ok || data.state == stateDirUnreadable {
+			// Note: If "ReadDirectory" is called before "ModKey" with this same
+			// path, then "data.state" will be "stateDirUnreadable". In that case
+			// we want to transition to a file state because it's a file. This
+			// matters when the file contents are served from the cache and
+			// "ReadFile" is never called for this path during this build.
 			if err == modKeyUnusable {
 				data.state = stateFileUnusableModKey
 			} else if err != nil {
